@@ -366,8 +366,50 @@ def seeding_pf(I):
     return bool(calls[0] == seed), "forwarded %r" % (calls[0],)
 
 
+_SALT_SCRIPT = """
+import sys, hashlib, random
+import numpy as np, torch, qucumber
+from qucumber.nn_states import PositiveWaveFunction, ComplexWaveFunction, DensityMatrix
+out = []
+for cls, args in ((PositiveWaveFunction, (3, 2)), (ComplexWaveFunction, (2, 3)), (DensityMatrix, (2, 3, 2))):
+    np.random.seed(int(sys.argv[1])); random.seed(int(sys.argv[1]) + 5)
+    qucumber.set_random_seed(7, cpu=True, gpu=False, quiet=True)
+    st = cls(*args, gpu=False)
+    qucumber.set_random_seed(11, cpu=True, gpu=False, quiet=True)
+    st.reinitialize_parameters()
+    smp = st.sample(2, num_samples=3)
+    h = hashlib.sha1()
+    for net in st.networks:
+        for name, p in getattr(st, net).named_parameters():
+            h.update(net.encode()); h.update(name.encode()); h.update(p.detach().numpy().tobytes())
+    h.update(smp.numpy().tobytes())
+    out.append(h.hexdigest())
+print(" ".join(out))
+"""
+
+
+def hash_salt(I):
+    """the same seeded sequence (construct, re-seed, reinitialise, sample) in fresh interpreters whose string-hash salt
+    (PYTHONHASHSEED) and foreign RNG states differ: bit-identical parameters and samples.  The salts are enumerated."""
+    import os
+    import subprocess
+    import sys
+
+    def run(salt):
+        env = dict(os.environ, PYTHONHASHSEED=str(salt), PYTHONPATH=os.environ.get("VERIF_REPO", "/repo"), OMP_NUM_THREADS="1")
+        p = subprocess.run([sys.executable, "-c", _SALT_SCRIPT, str(salt)], capture_output=True, text=True, env=env, timeout=600)
+        if p.returncode != 0:
+            raise RuntimeError("interpreter with salt %s failed: %s" % (salt, p.stderr[-400:]))
+        return p.stdout.strip()
+
+    ref = run(0)
+    got = run(int(I["salt"]))
+    return got == ref, "salt %d gives %s, salt 0 gives %s (one digest per state type)" % (int(I["salt"]), got, ref)
+
+
 def specs(tier):
-    return [dict(name="seeding-all-seeds", module="checks.c14", function="seeding_pf", kwargs={}, inputs=dict(seed=("int", -(2 ** 31), 2 ** 63 - 1), gpu=("int", 0, 1)))]
+    return [dict(name="seeding-all-seeds", module="checks.c14", function="seeding_pf", kwargs={}, inputs=dict(seed=("int", -(2 ** 31), 2 ** 63 - 1), gpu=("int", 0, 1))),
+            dict(name="interpreter-hash-salts", module="checks.c14", function="hash_salt", kwargs={}, inputs=dict(salt=("int", 1, 3 if tier == "quick" else 8)))]
 
 
 def jobs(tier):
